@@ -61,5 +61,7 @@ ASSUMPTIONS = {
 # Crash signatures of listed known findings (key -> regex over the test output). Only active while
 # known_findings.txt lists a `known:` entry with that key for the property being checked.
 KNOWN_CRASH_SIGNATURES = {
-    "pion-udp-accept-close-race": r"sync: (WaitGroup is reused before previous Wait has returned|negative WaitGroup counter|WaitGroup misuse)[\s\S]{0,600}pion/transport/v2/udp",
+    # the process dies (WaitGroup panic) or, under the race detector, the same misuse is reported as a race
+    # between listener.Accept (connWG.Add) and the goroutine started by Listen (connWG.Wait)
+    "pion-udp-accept-close-race": r"(sync: (WaitGroup is reused before previous Wait has returned|negative WaitGroup counter|WaitGroup misuse)[\s\S]{0,600}pion/transport/v2/udp|DATA RACE[\s\S]{0,1200}pion/transport/v2/udp\.\(\*listener\)\.Accept\(\)[\s\S]{0,2500}pion/transport/v2/udp\.\(\*ListenConfig\)\.Listen\.func1|DATA RACE[\s\S]{0,1200}pion/transport/v2/udp\.\(\*ListenConfig\)\.Listen\.func1[\s\S]{0,2500}pion/transport/v2/udp\.\(\*listener\)\.Accept\(\))",
 }
